@@ -34,7 +34,8 @@ def atomic_begin(ctx, rule='C04.atomic-begin'):
 
     def excl(li, bb):
         return {n for (n, m) in li.held_must_at(bb) if m == 'X'}
-    sets = [('Rm', bb, excl(lr, bb)) for bb in Rm] + [('Rp', bb, excl(lr, bb)) for bb in Rp] + [('Wd', bb, excl(lw, bb)) for bb in Wd]
+    # the writer's release need not be inside the critical section (see c03.release_bound); its READ of the registry is, by construction (it goes through the guard)
+    sets = [('Rm', bb, excl(lr, bb)) for bb in Rm] + [('Rp', bb, excl(lr, bb)) for bb in Rp]
     common = set.intersection(*[s for _, _, s in sets])
     ctx.stats['atomic_begin_sites'] = ['%s@%s holds %s' % (k, bf.loc(bb), sorted(s)) for k, bb, s in sets]
     if common:
@@ -126,6 +127,7 @@ def run(ctx, tier):
     results += c09.writer_reads_after_lock(ctx, rule='C04.writer-snapshot')
     results += c03.sorted_registry(ctx, rule='C04.registry-discipline')
     results += c03.release_sites(ctx, rule='C04.release-site')
+    results += c03.release_bound(ctx, rule='C04.release-bound')
     results += c03.deregister_only_own(ctx, rule='C04.deregister-only-own')
     import c10
     results += c10.release_per_entry(ctx, rule='C04.release-per-entry')
